@@ -109,6 +109,24 @@ func (c *Ctx) execCall(s *State, in ssa.Instruction, cc *ssa.CallCommon, res ssa
 		}
 	}
 	if cc.IsInvoke() {
+		if impl, ok := c.eng.contracts.dispatch[name]; ok {
+			if fn := c.eng.fnByKey[impl]; fn != nil {
+				if iv, ok := recv.(If); ok {
+					nm := fmt.Sprintf("%s/safe:nilcall@%s#%d", fnKey(in.Parent()), otag(in), c.ordinal("nilcall", in))
+					c.oblige(s, "safe", nm, Neq(iv.Typ, IntLit(0)), pos, "method call on nil interface: "+name, []string{"C18"})
+					s.assume(Neq(iv.Typ, IntLit(0)))
+					// the dynamic type is the repo implementation (stated assumption)
+					c.note("interface " + name + " dispatched to " + impl + " (the only non-test implementation)")
+					callee = fn
+					name = impl
+					args = append([]Value{Sc{T: iv.Val}}, args...)
+					recv = nil
+					s.assume(Neq(iv.Val, IntLit(0)))
+				}
+			}
+		}
+	}
+	if cc.IsInvoke() && callee == nil {
 		iv, ok := recv.(If)
 		if ok {
 			nm := fmt.Sprintf("%s/safe:nilcall@%s#%d", fnKey(in.Parent()), otag(in), c.ordinal("nilcall", in))
@@ -134,7 +152,7 @@ func (c *Ctx) execCall(s *State, in ssa.Instruction, cc *ssa.CallCommon, res ssa
 
 	// 1. modular: callee (or assumed external) has a contract
 	if fc != nil && (fc.HasSpec || fc.Assumed || fc.Pure) && !fc.Inline {
-		r := c.applyContract(s, in, fc, callee, cc, recv, args, res)
+		r := c.applyContract(s, in, fc, callee, cc, recv, args, binds, res)
 		ev.Res = r
 		if isEvent {
 			s.seq++
@@ -201,7 +219,9 @@ func (c *Ctx) execCall(s *State, in ssa.Instruction, cc *ssa.CallCommon, res ssa
 	c.opaque[name] = true
 	var r Value
 	if res != nil {
+		c.paramMode = true
 		r = c.freshValue(s, res.Type(), "ret|"+shortName(name))
+		c.paramMode = false
 		// results of opaque calls are at least as old as "now"
 		s.clock++
 		c.setVal(s, res, r)
@@ -238,6 +258,9 @@ func (c *Ctx) funcValueContractName(v ssa.Value) string {
 			pt := fa.X.Type().Underlying().(*types.Pointer).Elem()
 			return shortTypeKey(pt) + "." + pt.Underlying().(*types.Struct).Field(fa.Field).Name()
 		}
+		if g, ok := x.X.(*ssa.Global); ok {
+			return g.Pkg.Pkg.Name() + "." + g.Name()
+		}
 		if fv, ok := x.X.(*ssa.FreeVar); ok {
 			return qualFnName(fv.Parent()) + "." + fv.Name()
 		}
@@ -259,12 +282,16 @@ func (c *Ctx) funcValueContractName(v ssa.Value) string {
 }
 
 // applyContract: assert requires, havoc the frame, assume ensures; returns the result value.
-func (c *Ctx) applyContract(s *State, in ssa.Instruction, fc *FuncContract, callee *ssa.Function, cc *ssa.CallCommon, recv Value, args []Value, res ssa.Value) Value {
+func (c *Ctx) applyContract(s *State, in ssa.Instruction, fc *FuncContract, callee *ssa.Function, cc *ssa.CallCommon, recv Value, args []Value, binds []Value, res ssa.Value) Value {
 	pos := posOf(c.eng.prog, in)
 	if fc.Assumed {
 		c.assumedUsed[fc.Key] = true
 	}
+	if fc.Unverified {
+		c.assumedUsed[fc.Key+" (repo function; contract used but not verified: "+fc.UnverifiedWhy+")"] = true
+	}
 	env := c.callEnv(s, fc, callee, cc, recv, args)
+	c.bindFreeVars(env, callee, binds)
 	pre := s.snapshot()
 	env.old = pre
 	for i, rq := range fc.Requires {
@@ -284,22 +311,25 @@ func (c *Ctx) applyContract(s *State, in ssa.Instruction, fc *FuncContract, call
 			c.havocTarget(s, env, m)
 		}
 	} else if callee != nil {
-		for _, h := range c.eng.modsOf(c, callee) {
-			c.havocHeap(s, h)
-		}
+		c.applyMods(s, c.eng.modsOf(c, callee), args, binds)
 	}
 	// result
 	var r Value
 	var rts []types.Type
 	if res != nil {
 		rt := res.Type()
-		if fc.Pure {
+		if fc.Clock {
+			r = Sc{T: c.clockRead(s, pos)}
+		} else if fc.Pure {
 			r = c.pureResult(s, fc, recv, args, rt)
 		} else if fc.Fresh && isRefType(rt) {
 			r = Sc{T: c.newRef(s, "fresh|"+shortName(fc.Key))}
 		} else {
 			s.clock++
+			// returned slices are modelled as views starting at index 0 unless the contract says they alias arguments
+			c.paramMode = !fc.Aliases
 			r = c.freshValue(s, rt, "ret|"+shortName(fc.Key))
+			c.paramMode = false
 		}
 		if tu, ok := rt.(*types.Tuple); ok {
 			for i := 0; i < tu.Len(); i++ {
@@ -386,6 +416,41 @@ func (c *Ctx) callEnv(s *State, fc *FuncContract, callee *ssa.Function, cc *ssa.
 		env.pkg = c.fn.Pkg.Pkg
 	}
 	return env
+}
+
+// pureWithEnsures: the pure result together with the facts its contract promises about it.
+func (c *Ctx) pureWithEnsures(s *State, fc *FuncContract, args []Value, argTypes []types.Type, rt types.Type) Value {
+	r := c.pureResult(s, fc, nil, args, rt)
+	if len(fc.Ensures) == 0 || len(fc.Params) == 0 {
+		return r
+	}
+	env := &Env{c: c, s: s, vars: map[string]tv{}}
+	env.old = s.snapshot()
+	for i, pn := range fc.Params {
+		if i < len(args) {
+			var t types.Type
+			if i < len(argTypes) {
+				t = argTypes[i]
+			}
+			env.vars[pn] = tv{args[i], t}
+		}
+	}
+	if tu, ok := r.(Tu); ok {
+		rtt := rt.(*types.Tuple)
+		for i, e := range tu.E {
+			env.results = append(env.results, tv{e, rtt.At(i).Type()})
+		}
+	} else {
+		env.results = []tv{{r, rt}}
+	}
+	for _, en := range fc.Ensures {
+		g := env.evalBool(en.Expr)
+		if len(env.errs) == 0 {
+			s.assume(g)
+		}
+		env.errs = nil
+	}
+	return r
 }
 
 // pureResult: result is an uninterpreted function of the arguments.
@@ -604,12 +669,7 @@ func (c *Ctx) execGo(s *State, x *ssa.Go) {
 		// bind free variables of the closure by name (cells)
 		if sc, ok := c.val(s, x.Call.Value).(Sc); ok {
 			if ci, ok := c.eng.closures[sc.T.S]; ok {
-				for i, fv := range callee.FreeVars {
-					if i < len(ci.binds) {
-						pt := fv.Type().(*types.Pointer)
-						env.vars[fv.Name()] = tv{c.loadAt(s, ci.binds[i].(Sc).T, pt.Elem()), pt.Elem()}
-					}
-				}
+				c.bindFreeVars(env, callee, ci.binds)
 			}
 		}
 		for i, rq := range fc.Requires {
@@ -806,4 +866,20 @@ func (c *Ctx) execOnceDo(s *State, in ssa.Instruction, cc *ssa.CallCommon, args 
 		}
 	}
 	return forks
+}
+
+// bindFreeVars makes the captured variables of a closure visible by name in a contract
+// environment: each is a cell that is dereferenced when the name is used.
+func (c *Ctx) bindFreeVars(env *Env, callee *ssa.Function, binds []Value) {
+	if callee == nil {
+		return
+	}
+	for i, fv := range callee.FreeVars {
+		if i < len(binds) {
+			if env.addrVars == nil {
+				env.addrVars = map[string]tv{}
+			}
+			env.addrVars[fv.Name()] = tv{binds[i], fv.Type()}
+		}
+	}
 }
